@@ -91,8 +91,8 @@ def do_replay(prop, modname, idx, ob, outdir):
         mod = importlib.import_module(modname)
         spec = mod.SPECS[idx]
         rp = getattr(spec, 'replay', None)
-        if rp is not None and ob.get('model') is not None:
-            script = rp(ob['model'], ob)
+        if rp is not None and (ob.get('model') is not None or isinstance(spec, contract.CustomCheck)):
+            script = rp(ob.get('model') or {}, ob)
     except Exception as e:
         header += '# replay adapter failed: %r\n' % (e,)
     battery = os.path.join(HERE, 'replay', 'battery_%s.py' % prop)
